@@ -14,8 +14,9 @@ reference kernel (`Spec/SoftmaxKernel.lean`) uses at the same place — for all 
 * ADD with shift 1 of a non-negative sum = `RoundingHalfSum` (pass 10);
 * pass 29 followed by pass 30 = `RoundingDivideByPOT((shifted_scale * exp_in_0).raw(), n)` of the reference.
 
-What is *not* proved: that the whole 31-operation stream equals `softmaxRow8` (the stream is data, not a Lean
-term; that is what the execution in `check_C01` compares, bit for bit).
+The whole 31-operation program (as `softmax.py` builds it, `Model/SoftmaxGraph.lean`) is proved equal to `softmaxRow8` in
+`Props/C01Softmax.softmax8_decomposition_eq_reference`; that the compiled *stream* is that program is what the execution in
+`check_C01` compares, bit for bit (the stream is data, not a Lean term).
 -/
 namespace VelaVerif.Props.C01Wide
 open VelaVerif.Requant VelaVerif.Lemmas.Sem
